@@ -6,7 +6,7 @@
     flags are decided on the implementation by round trips over generated terms
     and operator tables, which is testing, not proof. *)
 From Coq Require Import ZArith Bool List String.
-From PV Require Import Model.Term Model.Canon Proofs.Canon Model.Quote Proofs.Quote.
+From PV Require Import Model.Term Model.Canon Proofs.Canon Model.Quote Proofs.Quote Model.CanonLex Proofs.CanonLex.
 Import ListNotations.
 
 Theorem C06_canonical_roundtrip : forall t, canon_ok t = true ->
@@ -22,10 +22,25 @@ Theorem C06_quoted_atom_roundtrip : forall (accept : Z -> bool) (s : list Z),
   Forall (fun c => valid_cp c = true) s -> read_quoted accept (quote accept s) = Some s.
 Proof. exact read_quoted_quote. Qed.
 
+(** down to the characters: for names made of a lower-case letter followed by
+    letters, digits and underscores, and decimal integers, the text of the
+    writer's tokens is taken apart into exactly those tokens by maximal munch
+    (every name or number is followed by punctuation or the end), and the whole
+    text reads back as the term *)
+Theorem C06_canonical_text_lexes : forall l fuel, lexable l = true -> (List.length l < fuel)%nat -> lex fuel (show l) = Some l.
+Proof. exact lex_show. Qed.
+Theorem C06_canonical_text_roundtrip : forall t, plain_term t = true -> read_text (show (pr t)) = Some t.
+Proof. exact read_text_roundtrip. Qed.
+Print Assumptions C06_canonical_text_roundtrip.
+
 Print Assumptions C06_canonical_roundtrip.
 Print Assumptions C06_quoted_atom_roundtrip.
 
 Open Scope string_scope.
+Example C06_text_nonvacuous :
+  read_text "foo(a,-12,g(0),b_1X)" = Some (Cmp "foo" [Atom "a"; Int (-12); Cmp "g" [Int 0]; Atom "b_1X"]) /\
+  read_text "foo(a,- 12)" = None.
+Proof. vm_compute. split; reflexivity. Qed.
 Example C06_nonvacuous :
   show (pr (Cmp "foo" [Atom "a"; Int (-12); Cmp "g" [Int 0]])) = "foo(a,-12,g(0))" /\
   parse 10 (pr (Cmp "foo" [Atom "a"; Int (-12); Cmp "g" [Int 0]])) = Some (Cmp "foo" [Atom "a"; Int (-12); Cmp "g" [Int 0]], []).
